@@ -48,6 +48,7 @@ type SpecEnv struct {
 	pkg        *types.Package
 	inOld      bool
 	curSpec    *specSig
+	loop       *loopInfo
 }
 
 func (e *Enc) newSpecEnv(fr *frame, st *bstate) *SpecEnv {
@@ -186,6 +187,16 @@ func (env *SpecEnv) lookupIdent(name string) (SVal, error) {
 				}
 			}
 		}
+	}
+	if env.loop != nil && (name == "rangepos" || name == "rangelen") {
+		rm := e.headerRange(env.loop)
+		if rm == nil {
+			return SVal{}, fmt.Errorf("%s: loop does not iterate a map with the exact enumeration model", name)
+		}
+		if name == "rangelen" {
+			return SVal{T: app(rm.rn, rm.it), Typ: types.Typ[types.Int], Sort: "Int"}, nil
+		}
+		return SVal{T: app("select", env.heapOf(e.iterComp()), rm.it), Typ: types.Typ[types.Int], Sort: "Int"}, nil
 	}
 	if g, ok := e.P.reg.Ghosts[name]; ok {
 		c := e.ghostComp(g)
@@ -644,7 +655,7 @@ func (env *SpecEnv) index(b, i SVal) (SVal, error) {
 	W := e.W
 	if isView(b.Sort) {
 		el := b.Typ.Underlying().(*types.Slice).Elem()
-		return SVal{T: app("select", app("svarr!"+b.Sort, b.T), app("+", app("svoff!"+b.Sort, b.T), i.T)), Typ: el, Sort: W.sortOf(el)}, nil
+		return SVal{T: app("select", app("svarr!"+b.Sort, b.T), app("idx", app("svoff!"+b.Sort, b.T), i.T)), Typ: el, Sort: W.sortOf(el)}, nil
 	}
 	switch b.Sort {
 	case "Str":
@@ -655,7 +666,7 @@ func (env *SpecEnv) index(b, i SVal) (SVal, error) {
 		}
 		el := b.Typ.Underlying().(*types.Slice).Elem()
 		c := W.elemComp(el)
-		return SVal{T: app("select", app("select", env.heapOf(c), app("sbase", b.T)), app("+", app("soff", b.T), i.T)), Typ: el, Sort: W.sortOf(el)}, nil
+		return SVal{T: app("select", app("select", env.heapOf(c), app("sbase", b.T)), app("idx", app("soff", b.T), i.T)), Typ: el, Sort: W.sortOf(el)}, nil
 	}
 	if b.Typ != nil {
 		switch t := b.Typ.Underlying().(type) {
@@ -800,6 +811,42 @@ func (env *SpecEnv) call(x *CExpr) (SVal, error) {
 		}
 		bx, _, _ := W.boxFns(a.Typ)
 		return SVal{T: app(bx, a.T), Sort: "Iface"}, nil
+	case "rangekey":
+		if env.loop == nil {
+			return SVal{}, fmt.Errorf("rangekey outside loop invariant")
+		}
+		rm := e.headerRange(env.loop)
+		if rm == nil {
+			return SVal{}, fmt.Errorf("rangekey: loop does not iterate a map with the exact enumeration model")
+		}
+		a, err := argv(0)
+		if err != nil {
+			return SVal{}, err
+		}
+		return SVal{T: app(rm.rk, rm.it, a.T), Typ: rm.mt.Key(), Sort: W.sortOf(rm.mt.Key())}, nil
+	case "errorsAs": // errorsAs(err, T): errors.As(err, &target) with target of type T succeeds
+		a, err := argv(0)
+		if err != nil {
+			return SVal{}, err
+		}
+		t, err := e.evalType(x.Args[1].String(), env.pkg)
+		if err != nil {
+			return SVal{}, err
+		}
+		return SVal{T: app(e.errAsPred(t), a.T), Typ: boolT, Sort: "Bool"}, nil
+	case "rangeidx": // position of key k in the enumeration of the map iterated by this loop
+		if env.loop == nil {
+			return SVal{}, fmt.Errorf("rangeidx outside loop invariant")
+		}
+		rm := e.headerRange(env.loop)
+		if rm == nil {
+			return SVal{}, fmt.Errorf("rangeidx: loop does not iterate a map with the exact enumeration model")
+		}
+		a, err := argv(0)
+		if err != nil {
+			return SVal{}, err
+		}
+		return SVal{T: app(rm.ri, rm.it, a.T), Typ: intT, Sort: "Int"}, nil
 	case "view":
 		a, err := argv(0)
 		if err != nil {
